@@ -577,26 +577,37 @@ def _check_mean_removed(alg, comp_poly, iter_poly, scale):
 
 
 def _iterate_var(P, gni):
-    """Name of the variable holding the current iterate: the signal argument of the envelope calls in the loop."""
+    """(name of the variable holding the current iterate, sifting loop node): the variable whose value at the head of
+    iterations >= 2 is the signal argument of the envelope calls of that iteration.  Read from the evaluated
+    iterations, so the envelope calls may sit in a helper."""
+    cache = P.__dict__.setdefault('_iterate_var_cache', {})
+    if gni.qualname in cache:
+        return cache[gni.qualname]
+    ev = Evaluator(P)
+    ev.run(gni, context={'stop_method': 'sd', 'energy_thresh': None})
+    loops = find_loop(ev, {ENV})
+    if len(loops) != 1:
+        raise AnalysisError('%s: expected one sifting loop around the envelope calls, found %d'
+                            % (gni.qualname, len(loops)))
+    loop = loops[0]
+    tag = '@L%d' % loop.lineno
     names = set()
-    for loop in [n for n in walk_local(gni.node) if isinstance(n, ast.While)]:
-        for n in ast.walk(loop):
-            if isinstance(n, ast.Call):
-                ca = P.resolve_callee(gni.module, gni, n.func)
-                if ca.kind == 'repo' and ca.dotted == ENV:
-                    if n.args and isinstance(n.args[0], ast.Name):
-                        names.add((n.args[0].id, loop))
-    if len({a for a, _ in names}) != 1:
-        # keep the candidates that the loop itself updates (the iterate changes, a stale signal does not)
-        upd = set()
-        for a, loop in names:
-            for n in ast.walk(loop):
-                if isinstance(n, ast.Name) and n.id == a and isinstance(n.ctx, ast.Store):
-                    upd.add((a, loop))
-        names = upd
-    if len({a for a, _ in names}) != 1:
-        raise AnalysisError('%s: cannot identify the iterate variable of the sifting loop' % gni.qualname)
-    return next(iter(names))
+    for sm in ev.loops_seen[loop]:
+        for passno, how, e in sm.ends:
+            if passno != '>=2':
+                continue
+            terms = [c for c, tr, ln in e.conds[sm.n_entry_conds:]] + [v for v in e.env.values() if isinstance(v, tuple)]
+            for t in terms:
+                for x in subterms(t):
+                    if x[0] == 'call' and x[1] == ENV:
+                        sig = dict(x[3]).get(P.func(ENV).params[0])
+                        if sig is not None and sig[0] == 's' and sig[1].endswith(tag):
+                            names.add(sig[1][:-len(tag)])
+    if len(names) != 1:
+        raise AnalysisError('%s: cannot identify the iterate variable of the sifting loop (candidates: %s)'
+                            % (gni.qualname, sorted(names)))
+    cache[gni.qualname] = (names.pop(), loop)
+    return cache[gni.qualname]
 
 
 def _no_envelope_path(e):
